@@ -346,7 +346,13 @@ where
     /// `false`.
     #[inline(always)]
     fn eq(&self, other: &Self) -> bool {
-        self.amount() == other.equiv_amount(self.unit())
+        // Compare in the unit with the smaller scale, so that the result
+        // does not depend on the order of the operands.
+        if self.unit().scale() >= other.unit().scale() {
+            self.equiv_amount(other.unit()) == other.amount()
+        } else {
+            self.amount() == other.equiv_amount(self.unit())
+        }
     }
 
     /// Returns the partial order of `self`s amount and `other`s eqivalent
@@ -354,6 +360,13 @@ where
     fn partial_cmp(&self, other: &Self) -> Option<Ordering> {
         if self.unit() == other.unit() {
             PartialOrd::partial_cmp(&self.amount(), &other.amount())
+        } else if self.unit().scale() >= other.unit().scale() {
+            // Compare in the unit with the smaller scale, so that the
+            // result does not depend on the order of the operands.
+            PartialOrd::partial_cmp(
+                &self.equiv_amount(other.unit()),
+                &other.amount(),
+            )
         } else {
             PartialOrd::partial_cmp(
                 &self.amount(),
